@@ -742,3 +742,33 @@ Qed.
 Lemma find_id_exact t0 groups ops t :
   In t (trs (run (init t0 groups) ops)) -> find_id (trs (run (init t0 groups) ops)) (t_id t) = Some t.
 Proof. intros H. apply find_id_unique; [apply ids_unique | assumption]. Qed.
+
+(* ------------------------------------------------------------------ scrapes and queued replies *)
+
+(* a tracker in the middle of a scrape can take an announce (it replaces the scrape): a due announce
+   is never diverted to another tracker because of a scrape *)
+Lemma scraping_tracker_requestable t :
+  t_en t = true -> t_busy t = true -> t_ev t = EvScrape -> can_request_state t = true.
+Proof. intros a b c. unfold can_request_state, busy_ann. rewrite a, b, c. reflexivity. Qed.
+
+(* handing a new request to a tracker cancels its result callback still queued for the main thread:
+   if the callback survives the call, nothing was sent *)
+Lemma send_event_cancels sr t ev s k :
+  pend (send_event sr t ev s) = Some (t_id t, k) -> log (send_event sr t ev s) = log s.
+Proof.
+  unfold send_event. destruct (negb (is_usable t)); [reflexivity |].
+  destruct (t_busy t && (event_eqb (t_ev t) ev || (negb (event_eqb (t_ev t) EvScrape) && event_eqb ev EvNone))); [reflexivity |].
+  simpl. destruct (pend s) as [[i k'] |]; [| discriminate].
+  destruct (Nat.eqb i (t_id t)) eqn:E; [discriminate |]. intros H. inversion H; subst. rewrite Nat.eqb_refl in E. discriminate.
+Qed.
+
+(* a scrape is only handed to an idle, enabled, scrapable tracker whose last scrape is at least the gap ago *)
+Lemma send_scrape_guard t s : slog (send_scrape t s) <> slog s ->
+  t_busy t = false /\ t_en t = true /\ t_scr t = true /\ (t_sct t + scrape_min_gap) * usec <= now s.
+Proof.
+  unfold send_scrape. destruct (t_busy t) eqn:Hb; simpl; [intros H; contradiction H; reflexivity |].
+  unfold is_usable. destruct (t_en t) eqn:He; simpl; [| intros H; contradiction H; reflexivity].
+  destruct (t_scr t) eqn:Hs; simpl; [| intros H; contradiction H; reflexivity].
+  destruct (now s <? (t_sct t + scrape_min_gap) * usec) eqn:Hg; [intros H; contradiction H; reflexivity |].
+  intros _. apply Z.ltb_ge in Hg. auto.
+Qed.
